@@ -7,6 +7,7 @@ import Driver.C10
 import Driver.C15
 import Driver.C09
 import Driver.C17
+import Driver.C20
 /-
   Line-protocol driver: one operation per input line, one canonical output line per operation.
   Imports `Model/` only (no Mathlib, no proofs) so that it links as a `lean_exe`.
@@ -24,7 +25,8 @@ def handlers : List Handler := [
   Driver.C04.handle,
   Driver.C15.handle,
   Driver.C09.handle,
-  Driver.C17.handle
+  Driver.C17.handle,
+  Driver.C20.handle
 ]
 
 def step (st : DState) (line : String) : DState × String :=
